@@ -5141,3 +5141,27 @@ M('C20', 'encrypt-works-on-message-copy', PGP, "        if message.is_encrypted:
 STREAM = ("        if self is CompressionAlgorithm.ZLIB:\n            return zlib.compress(data)\n\n        if self is CompressionAlgorithm.BZ2:\n            return bz2.compress(data)\n")
 M('C20', 'zlib-streamed-tail-from-end', CO, STREAM, "        if self is CompressionAlgorithm.ZLIB:\n            comp = zlib.compressobj()\n            out = bytearray()\n            for i in range(len(data) // 65536):\n                out += comp.compress(data[i * 65536:(i + 1) * 65536])\n            out += comp.compress(data[-(len(data) % 65536):])\n            out += comp.flush()\n            return bytes(out)\n\n        if self is CompressionAlgorithm.BZ2:\n            return bz2.compress(data)\n", 'C20.5')
 T('C20', 'twin-zlib-streamed-partition', CO, STREAM, "        if self is CompressionAlgorithm.ZLIB:\n            comp = zlib.compressobj()\n            out = bytearray()\n            nblocks = len(data) // 65536\n            for i in range(nblocks):\n                out += comp.compress(data[i * 65536:(i + 1) * 65536])\n            out += comp.compress(data[nblocks * 65536:])\n            out += comp.flush()\n            return bytes(out)\n\n        if self is CompressionAlgorithm.BZ2:\n            return bz2.compress(data)\n")
+
+# =============================================================================================== C18 wave 5 (w4 seeded shapes, twin C16-ref16)
+T('C18', 'twin-new-packet-attached-at-creation', PGP, "        sigpkt = SignatureV4()\n        sigpkt.header.tag = 2", "        sigpkt = sig._signature = SignatureV4()\n        sigpkt.header.tag = 2",
+  more=[(PGP, "        sigpkt.subpackets.addnew('Issuer', _issuer=signer)\n", "        sig._name_issuer_keyid(signer)\n"),
+        (PGP, "            sigpkt.halg = halg\n\n        sig._signature = sigpkt\n        return sig\n", "            sigpkt.halg = halg\n\n        return sig\n\n    def _name_issuer_keyid(self, keyid):\n        self._signature.subpackets.addnew('Issuer', _issuer=keyid)\n\n    def _name_issuer_fingerprint(self, fingerprint):\n        self._signature.subpackets.addnew('IssuerFingerprint', hashed=True, _version=4, _issuer_fpr=fingerprint)\n"),
+        (PGP, "                sig._signature.subpackets.addnew('IssuerFingerprint', hashed=True, _version=4, _issuer_fpr=self.fingerprint)", "                sig._name_issuer_fingerprint(self.fingerprint)")])
+M('C18', 'new-issuer-helper-names-wrong-argument', PGP, "        sigpkt = SignatureV4()\n        sigpkt.header.tag = 2", "        sigpkt = sig._signature = SignatureV4()\n        sigpkt.header.tag = 2",
+  'C18.7', more=[(PGP, "        sigpkt.subpackets.addnew('Issuer', _issuer=signer)\n", "        sig._name_issuer_keyid(signer[-8:])\n"),
+        (PGP, "            sigpkt.halg = halg\n\n        sig._signature = sigpkt\n        return sig\n", "            sigpkt.halg = halg\n\n        return sig\n\n    def _name_issuer_keyid(self, keyid):\n        self._signature.subpackets.addnew('Issuer', _issuer=keyid)\n")])
+M('C18', 'pkalg-deprecated-rsa-ids-folded', PK, "        self._pkalg = PubKeyAlgorithm(val)\n\n        _c = {\n            # True means public", "        self._pkalg = PubKeyAlgorithm(val)\n        if self._pkalg in {PubKeyAlgorithm.RSAEncrypt, PubKeyAlgorithm.RSASign}:\n            self._pkalg = PubKeyAlgorithm.RSAEncryptOrSign\n\n        _c = {\n            # True means public", 'C18.11')
+M('C18', 'pkalg-setter-renumbers-elgamal-alias', PK, "        self._pkalg = PubKeyAlgorithm(val)\n\n        _c = {\n            # True means public", "        self._pkalg = PubKeyAlgorithm(16 if val == 20 else val)\n\n        _c = {\n            # True means public", 'C18.11')
+T('C18', 'twin-intended-recipient-temporaries', PGP, "                sig._signature.subpackets.addnew('IntendedRecipient', hashed=True, version=4,\n                                                 intended_recipient=intended_recipient.fingerprint)",
+  "                named = intended_recipient\n                fpr = named.fingerprint\n                sig._signature.subpackets.addnew('IntendedRecipient', True, intended_recipient=fpr, version=4)")
+M('C18', 'intended-recipient-resolved-to-encryption-subkey', PGP, "                sig._signature.subpackets.addnew('IntendedRecipient', hashed=True, version=4,\n                                                 intended_recipient=intended_recipient.fingerprint)",
+  "                rcpt = next((k for k in intended_recipient.subkeys.values()), intended_recipient)\n                sig._signature.subpackets.addnew('IntendedRecipient', hashed=True, version=4,\n                                                 intended_recipient=rcpt.fingerprint)", 'C18.7')
+M('C18', 'intended-recipient-names-signer', PGP, "                sig._signature.subpackets.addnew('IntendedRecipient', hashed=True, version=4,\n                                                 intended_recipient=intended_recipient.fingerprint)",
+  "                sig._signature.subpackets.addnew('IntendedRecipient', hashed=True, version=4,\n                                                 intended_recipient=self.fingerprint)", 'C18.7')
+M('C18', 'intended-recipient-primary-of-named-subkey', PGP, "                sig._signature.subpackets.addnew('IntendedRecipient', hashed=True, version=4,\n                                                 intended_recipient=intended_recipient.fingerprint)",
+  "                sig._signature.subpackets.addnew('IntendedRecipient', hashed=True, version=4,\n                                                 intended_recipient=(intended_recipient.parent or intended_recipient).fingerprint)", 'C18.7')
+_IR = "                sig._signature.subpackets.addnew('IntendedRecipient', hashed=True, version=4,\n                                                 intended_recipient=intended_recipient.fingerprint)\n            elif isinstance(intended_recipient, Fingerprint):\n                # FIXME: what if it's not a v4 fingerprint?\n                sig._signature.subpackets.addnew('IntendedRecipient', hashed=True, version=4,\n                                                 intended_recipient=intended_recipient)\n            else:\n                warnings.warn(\"Intended Recipient is not a PGPKey, ignoring\")\n"
+T('C18', 'twin-intended-recipient-one-shared-call', PGP, _IR,
+  "                recipient_fpr = intended_recipient.fingerprint\n            elif isinstance(intended_recipient, Fingerprint):\n                recipient_fpr = intended_recipient\n            else:\n                warnings.warn(\"Intended Recipient is not a PGPKey, ignoring\")\n                continue\n\n            sig._signature.subpackets.addnew('IntendedRecipient', hashed=True, version=4,\n                                             intended_recipient=recipient_fpr)\n")
+M('C18', 'intended-recipient-shared-call-one-arm-derived', PGP, _IR,
+  "                recipient_fpr = (intended_recipient.parent or intended_recipient).fingerprint\n            elif isinstance(intended_recipient, Fingerprint):\n                recipient_fpr = intended_recipient\n            else:\n                warnings.warn(\"Intended Recipient is not a PGPKey, ignoring\")\n                continue\n\n            sig._signature.subpackets.addnew('IntendedRecipient', hashed=True, version=4,\n                                             intended_recipient=recipient_fpr)\n", 'C18.7')
